@@ -781,24 +781,24 @@ def _canon(o):
                 _canon(v)
 
 
-def canon(o):
-    """CIM-XML has no way to say "not specified" for PROPAGATED and the qualifier flavors: DSP0201 defines the
-    value an absent attribute stands for (PROPAGATED false, OVERRIDABLE true, TOSUBCLASS true, TOINSTANCE false,
-    TRANSLATABLE false), and the receiver reads exactly that.  A None in one of these slots and the DSP0201 default
-    are therefore the same thing on the wire; nothing else is normalised."""
-    o = copy.deepcopy(o)
-    _canon(o)
-    return o
+# _canon: CIM-XML has no way to say "not specified" for PROPAGATED and the qualifier flavors: DSP0201 defines the value
+# an absent attribute stands for (PROPAGATED false, OVERRIDABLE true, TOSUBCLASS true, TOINSTANCE false, TRANSLATABLE
+# false), and the receiver reads exactly that.  A None in one of these slots and the DSP0201 default are therefore the
+# same thing on the wire.  Besides that only what the comments in _canon name is normalised.
 
 
-def result_diff(ra, rw):
-    """None, or (slot, direct, wire, where) of the first difference between two results"""
+def result_diff(ra, rw, owned=True):
+    """None, or (slot, direct, wire, where) of the first difference between two results.  owned: the objects belong
+    to the harness (results, recorded copies) and are brought to canonical form in place; otherwise copies are"""
     try:
         if ra == rw and walk_diff(ra, rw) is None and uris(ra, []) == uris(rw, []):
             return None
     except Exception:     # pylint: disable=broad-except
         pass
-    ra, rw = canon(ra), canon(rw)
+    if not owned:
+        ra, rw = copy.deepcopy(ra), copy.deepcopy(rw)
+    _canon(ra)
+    _canon(rw)
     d = walk_diff(ra, rw)
     if d:
         return d
@@ -884,13 +884,25 @@ class Pair:
                 sb = getattr(rb, 'get_%s_store' % what)(ns)
                 va = sorted(sa.iter_values(copy=False), key=sortkey)
                 vb = sorted(sb.iter_values(copy=False), key=sortkey)
-                d = result_diff(va, vb)
-                if d:
-                    return ('%s-store[%s] %s' % (what, ns, d[0]),) + tuple(d[1:])
+                ka, kb = [sortkey(o) for o in va], [sortkey(o) for o in vb]
+                if ka != kb:
+                    return ('%s-store[%s] #names' % (what, ns), [k for k in ka if k not in kb],
+                            [k for k in kb if k not in ka], '')
+                for x, y in zip(va, vb):
+                    key = (repr(x), repr(y))        # the full state of both stored objects
+                    if key in SAME:
+                        continue
+                    d = result_diff(x, y, owned=False)
+                    if d:
+                        return ('%s-store[%s] %s' % (what, ns, d[0]),) + tuple(d[1:])
+                    SAME.add(key)
         ca, cb = len(self.A._mainprovider.enumeration_contexts), len(self.B._mainprovider.enumeration_contexts)
         if ca != cb:
             return 'open-enumeration-contexts', ca, cb, ''
         return None
+
+
+SAME = set()        # pairs of stored objects (by their full repr) already found equal
 
 
 def sortkey(o):
